@@ -1,0 +1,12 @@
+//go:build verif
+
+package local
+
+import "github.com/AliceO2Group/Control/configuration/cfgbackend"
+
+// NewServiceWithSourceForVerif is NewService on top of an already constructed backend.
+func NewServiceWithSourceForVerif(src cfgbackend.Source) *Service {
+	return &Service{
+		src: src,
+	}
+}
